@@ -267,27 +267,45 @@ Proof.
   destruct (r =? x) eqn:E; [apply Z.eqb_eq in E; now subst|]. intros [H|H]; [lia|now apply IH].
 Qed.
 
+Lemma sorted_lt_nodup l : StronglySorted Z.lt l -> NoDup l.
+Proof.
+  induction 1 as [|a l HS IH Hall]; constructor; [|exact IH].
+  intros Hin. rewrite Forall_forall in Hall. specialize (Hall a Hin). lia.
+Qed.
+
 (** [c] is what the property demands at resolution [r]: the copied base, or the DIRECT coarsening of a
     base by the ratio of resolutions (for any chunk and batch size) *)
-Definition Direct (bases : list (Z * cooler)) (r : Z) (c : cooler) : Prop :=
+Section ZoomAbstract.
+Context {C : Type}.
+Variable coarsenC : C -> Z -> Z -> Z -> C.
+Variable emptyC : C.
+Variable ValidC : C -> Prop.
+Hypothesis HCvalid : forall c k cs bs, 1 <= k -> 1 <= cs -> 1 <= bs -> ValidC c -> ValidC (coarsenC c k cs bs).
+Hypothesis HCcompose : forall c k1 k2 cs1 bs1 cs2 bs2 cs bs,
+  1 <= k1 -> 1 <= k2 -> 1 <= cs1 -> 1 <= bs1 -> 1 <= cs2 -> 1 <= bs2 -> 1 <= cs -> 1 <= bs -> ValidC c ->
+  coarsenC (coarsenC c k1 cs1 bs1) k2 cs2 bs2 = coarsenC c (k1 * k2) cs bs.
+Hypothesis HCindep : forall c k cs1 bs1 cs2 bs2,
+  1 <= k -> 1 <= cs1 -> 1 <= bs1 -> 1 <= cs2 -> 1 <= bs2 -> ValidC c -> coarsenC c k cs1 bs1 = coarsenC c k cs2 bs2.
+
+Definition DirectW (bases : list (Z * C)) (r : Z) (c : C) : Prop :=
   (In r (map fst bases) /\ lookup r (base_dict bases) = Some c) \/
   (~ In r (map fst bases) /\ exists b cb k, In b (map fst bases) /\ lookup b (base_dict bases) = Some cb /\ 2 <= k /\ r = b * k /\
-      forall cs bs, 1 <= cs -> 1 <= bs -> c = coarsen_c cb k cs bs).
+      forall cs bs, 1 <= cs -> 1 <= bs -> c = coarsenC cb k cs bs).
 
 Section Zoomify.
-  Variable bases : list (Z * cooler).
+  Variable bases : list (Z * C).
   Variable res : list Z.
   Variables cs bs : Z.
   Hypothesis Hcs : 1 <= cs.
   Hypothesis Hbs : 1 <= bs.
   Hypothesis Hres : Positive res.
   Hypothesis Hbpos : Positive (map fst bases).
-  Hypothesis Hvalid : forall b c, In (b, c) bases -> ValidCooler c.
+  Hypothesis Hvalid : forall b c, In (b, c) bases -> ValidC c.
   Let bres := map fst bases.
   Let BD := base_dict bases.
-  Let base_of := fun b => match lookup b BD with Some c => c | None => ([], [], []) end.
+  Let base_of := fun b => match lookup b BD with Some c => c | None => emptyC end.
 
-  Lemma base_lookup b : In b bres -> exists c, lookup b BD = Some c /\ ValidCooler c.
+  Lemma base_lookup b : In b bres -> exists c, lookup b BD = Some c /\ ValidC c.
   Proof.
     intros Hb. assert (Hk : In b (map fst BD)).
     { unfold BD, base_dict. rewrite map_rev. apply in_rev. rewrite rev_involutive. exact Hb. }
@@ -319,18 +337,18 @@ Section Zoomify.
   Qed.
 
   (** invariant of the Aggregate loop after the first n entries of resn *)
-  Definition ZInv (n : nat) (lv : list (Z * cooler)) : Prop :=
+  Definition ZInv (n : nat) (lv : list (Z * C)) : Prop :=
     (forall b, In b bres -> lookup b lv = Some (base_of b)) /\
-    (forall i, (i < n)%nat -> (i < length resn)%nat -> exists c, lookup (nth i resn 0) lv = Some c /\ Direct bases (nth i resn 0) c /\ ValidCooler c) /\
+    (forall i, (i < n)%nat -> (i < length resn)%nat -> exists c, lookup (nth i resn 0) lv = Some c /\ DirectW bases (nth i resn 0) c /\ ValidC c) /\
     NoDup (map fst lv) /\
     (forall r, In r (map fst lv) -> In r bres \/ exists j, (j < n)%nat /\ (j < length resn)%nat /\ r = nth j resn 0).
 
   Lemma zoom_step_inv n lv : (n < length resn)%nat -> ZInv n lv ->
-    exists lv', zoom_step resn pred mult bres cs bs (Some lv) n = Some lv' /\ ZInv (S n) lv'.
+    exists lv', zoom_step_w coarsenC resn pred mult bres cs bs (Some lv) n = Some lv' /\ ZInv (S n) lv'.
   Proof.
     intros Hn (IB & ID & IN & IK).
     destruct sound_resn as (Lp & Lm & Hs). specialize (Hs n Hn).
-    unfold zoom_step.
+    unfold zoom_step_w.
     assert (Hnth : nth n pred (-1) = nth n pred 0) by (apply nth_indep; lia). rewrite Hnth.
     destruct Hs as [(Hp & Hm & Hb)|(Hp & Hm & Hprod)].
     - (* a base: nothing written *)
@@ -362,16 +380,16 @@ Section Zoomify.
         split; [|split; [|split]].
         * intros b Hb. rewrite lookup_cons_ne; [now apply IB|]. intros ->. contradiction.
         * intros i Hi Hil. destruct (Nat.eq_dec i n) as [->|Hne].
-          -- exists (coarsen_c cp m cs bs). split; [cbn [lookup]; now rewrite Z.eqb_refl|].
-             split; [|apply coarsen_c_valid; auto; lia].
+          -- exists (coarsenC cp m cs bs). split; [cbn [lookup]; now rewrite Z.eqb_refl|].
+             split; [|apply HCvalid; auto; lia].
              right. split; [exact Hnb|].
              destruct Dp as [(Hb & Hl)|(_ & b & cb & k & Hb & Hl & Hk & Er & Hc)].
              ++ exists (nth q resn 0), cp, m. split; [exact Hb|]. split; [exact Hl|]. split; [exact Hm|]. split; [lia|].
-                intros cs' bs' Hcs' Hbs'. apply coarsen_c_chunk_independent; auto; lia.
+                intros cs' bs' Hcs' Hbs'. apply HCindep; auto; lia.
              ++ destruct (base_lookup _ Hb) as (cb' & Hl' & Vcb). unfold BD in Hl'. rewrite Hl in Hl'. injection Hl' as <-.
                 exists b, cb, (k * m). split; [exact Hb|]. split; [exact Hl|]. split; [nia|]. split; [rewrite <- Hprod, Er; lia|].
                 intros cs' bs' Hcs' Hbs'. rewrite (Hc cs bs Hcs Hbs).
-                apply coarsen_c_compose; auto; lia.
+                apply HCcompose; auto; lia.
           -- destruct (ID i ltac:(lia) Hil) as (c & Hl & D & V). exists c. split; [|auto].
              rewrite lookup_cons_ne; [exact Hl|]. apply resn_nodup_nth; auto.
         * cbn [map fst]. constructor; [|exact IN]. intros X. now apply (Hnew _ X).
@@ -380,7 +398,7 @@ Section Zoomify.
   Qed.
 
   Lemma zoom_fold_inv : forall m n lv, (n + m = length resn)%nat -> ZInv n lv ->
-    exists lv', fold_left (zoom_step resn pred mult bres cs bs) (seq n m) (Some lv) = Some lv' /\ ZInv (length resn) lv'.
+    exists lv', fold_left (zoom_step_w coarsenC resn pred mult bres cs bs) (seq n m) (Some lv) = Some lv' /\ ZInv (length resn) lv'.
   Proof.
     induction m as [|m IH]; intros n lv Hnm HI.
     - exists lv. split; [reflexivity|]. replace (length resn) with n by lia. exact HI.
@@ -389,36 +407,30 @@ Section Zoomify.
   Qed.
 End Zoomify.
 
-Lemma sorted_lt_nodup l : StronglySorted Z.lt l -> NoDup l.
-Proof.
-  induction 1 as [|a l HS IH Hall]; constructor; [|exact IH].
-  intros Hin. rewrite Forall_forall in Hall. specialize (Hall a Hin). lia.
-Qed.
-
 (** zoomify_cooler: every level of the file is the copied base or the DIRECT coarsening of a base by the
     ratio of resolutions, whatever chain of intermediate levels produced it; each of the requested and base
     resolutions is present exactly once; it refuses exactly the non-derivable requests *)
-Theorem zoom_level_eq_direct bases res cs bs :
+Theorem zoom_with_eq_direct bases res cs bs :
   1 <= cs -> 1 <= bs -> Positive res -> Positive (map fst bases) ->
-  (forall b c, In (b, c) bases -> ValidCooler c) ->
-  (forall lv, zoomify_cooler bases res cs bs = Some lv ->
+  (forall b c, In (b, c) bases -> ValidC c) ->
+  (forall lv, zoomify_with coarsenC emptyC bases res cs bs = Some lv ->
      Permutation (map fst lv) (np_unique (map fst bases ++ res)) /\ NoDup (map fst lv) /\
-     forall r c, lookup r lv = Some c -> Direct bases r c /\ ValidCooler c) /\
-  (zoomify_cooler bases res cs bs = None <->
+     forall r c, lookup r lv = Some c -> DirectW bases r c /\ ValidC c) /\
+  (zoomify_with coarsenC emptyC bases res cs bs = None <->
      exists r, In r res /\ forall b, In b (map fst bases) -> r mod b <> 0).
 Proof.
   intros Hcs Hbs Hres Hbpos Hvalid.
   pose proof (multseq_complete res (map fst bases) Hres Hbpos) as Hcomp.
-  unfold zoomify_cooler.
+  unfold zoomify_with.
   destruct (get_multiplier_sequence res (Some (map fst bases))) as [[[resn pred] mult]|] eqn:Hseq.
   2:{ split; [intros lv H; discriminate|]. split; [intros _; now apply Hcomp|reflexivity]. }
-  set (copied := map (fun b => (b, match lookup b (base_dict bases) with Some c => c | None => ([], [], []) end))
+  set (copied := map (fun b => (b, match lookup b (base_dict bases) with Some c => c | None => emptyC end))
                      (np_unique (map fst bases))).
   assert (Hkeys : map fst copied = np_unique (map fst bases)).
   { unfold copied. rewrite map_map. cbn [fst]. apply map_id. }
   assert (H0 : ZInv bases resn 0 copied).
   { split; [|split; [|split]].
-    - intros b Hb. unfold copied. apply (lookup_copied (fun b => match lookup b (base_dict bases) with Some c => c | None => ([], [], []) end)).
+    - intros b Hb. unfold copied. apply (lookup_copied (fun b => match lookup b (base_dict bases) with Some c => c | None => emptyC end)).
       apply (proj2 (np_unique_in _ _)). exact Hb.
     - intros i Hi. lia.
     - rewrite Hkeys. apply sorted_lt_nodup, np_unique_sorted.
@@ -443,6 +455,84 @@ Proof.
       destruct (ID i Hi Hi) as (c' & Hl' & D & V). rewrite Hl in Hl'. injection Hl' as <-. auto.
   - split; [discriminate|]. intros Hex. apply Hcomp in Hex. congruence.
 Qed.
+
+End ZoomAbstract.
+
+(** default aggregation (sum of the count column) *)
+Definition Direct : list (Z * cooler) -> Z -> cooler -> Prop := DirectW coarsen_c.
+
+Theorem zoom_level_eq_direct bases res cs bs :
+  1 <= cs -> 1 <= bs -> Positive res -> Positive (map fst bases) ->
+  (forall b c, In (b, c) bases -> ValidCooler c) ->
+  (forall lv, zoomify_cooler bases res cs bs = Some lv ->
+     Permutation (map fst lv) (np_unique (map fst bases ++ res)) /\ NoDup (map fst lv) /\
+     forall r c, lookup r lv = Some c -> Direct bases r c /\ ValidCooler c) /\
+  (zoomify_cooler bases res cs bs = None <->
+     exists r, In r res /\ forall b, In b (map fst bases) -> r mod b <> 0).
+Proof.
+  intros. apply (zoom_with_eq_direct coarsen_c ([], [], []) ValidCooler coarsen_c_valid coarsen_c_compose
+                   coarsen_c_chunk_independent); assumption.
+Qed.
+
+(* ============================== any value type, any aggregation that composes over a partition *)
+Section ZoomAgg.
+  Context {V : Type}.
+  Variable agg : list V -> V.
+  Hypothesis Hperm : AggPerm agg.
+  Hypothesis Hdecomp : AggDecomp agg.
+
+  Definition ValidCoolerG (c : gcooler V) : Prop :=
+    exists blocks, fst (fst c) = concat blocks /\ ValidBlocks blocks /\ snd (fst c) = map chrom_end blocks /\
+                   RowSorted (shadow (snd c)) /\ InRange (zlen (concat blocks)) (shadow (snd c)).
+
+  Lemma coarsen_cg_valid c k cs bs : 1 <= k -> 1 <= cs -> 1 <= bs -> ValidCoolerG c -> ValidCoolerG (coarsen_cg agg c k cs bs).
+  Proof.
+    intros Hk Hcs Hbs (blocks & Eb & HV & Es & HS & HR).
+    destruct (coarsen_bins_spec blocks k Hk HV) as (E1 & V1 & Ends1 & Lens1).
+    exists (map (coarsen_block k) blocks). unfold coarsen_cg, coarsen_cooler_g. cbn [fst snd].
+    rewrite Eb, Es, E1. split; [reflexivity|]. split; [exact V1|]. split; [now rewrite Ends1|].
+    rewrite (coarsen_exact agg blocks (snd c) k cs bs) by (auto using inrange_rows).
+    assert (Hlens : Forall (fun n => 0 <= n) (map zlen blocks)).
+    { eapply Forall_impl; [|exact (valid_lens blocks HV)]. intros; cbn in *; lia. }
+    split.
+    - unfold coarsen_spec_g. apply groupby_rowsorted.
+    - rewrite zlen_concat, Lens1, <- (map_map zlen (fun n => cdiv n k)).
+      apply coarsen_spec_inrange_g; auto. now rewrite <- zlen_concat.
+  Qed.
+
+  Lemma coarsen_cg_compose c k1 k2 cs1 bs1 cs2 bs2 cs bs :
+    1 <= k1 -> 1 <= k2 -> 1 <= cs1 -> 1 <= bs1 -> 1 <= cs2 -> 1 <= bs2 -> 1 <= cs -> 1 <= bs -> ValidCoolerG c ->
+    coarsen_cg agg (coarsen_cg agg c k1 cs1 bs1) k2 cs2 bs2 = coarsen_cg agg c (k1 * k2) cs bs.
+  Proof.
+    intros H1 H2 Hc1 Hb1 Hc2 Hb2 Hc Hb (blocks & Eb & HV & Es & HS & HR).
+    pose proof (coarsen_compose_g agg Hperm Hdecomp blocks (snd c) k1 k2 cs1 bs1 cs2 bs2 cs bs H1 H2 Hc1 Hb1 Hc2 Hb2 Hc Hb HV HS HR) as H.
+    cbv zeta in H. unfold coarsen_cg. cbn [fst snd]. rewrite Eb, Es. rewrite H. reflexivity.
+  Qed.
+
+  Lemma coarsen_cg_chunk_independent c k cs1 bs1 cs2 bs2 :
+    1 <= k -> 1 <= cs1 -> 1 <= bs1 -> 1 <= cs2 -> 1 <= bs2 -> ValidCoolerG c ->
+    coarsen_cg agg c k cs1 bs1 = coarsen_cg agg c k cs2 bs2.
+  Proof.
+    intros Hk Hc1 Hb1 Hc2 Hb2 (blocks & Eb & HV & Es & HS & HR).
+    unfold coarsen_cg, coarsen_cooler_g. cbn [fst snd]. rewrite Eb, Es.
+    rewrite (coarsen_exact_chunk_independent agg blocks (snd c) k cs1 bs1 cs2 bs2) by (auto using inrange_rows). reflexivity.
+  Qed.
+
+  (** zoomify with a requested aggregation: every derived level is the DIRECT coarsening (with that
+      aggregation) of a base by the ratio of resolutions, whatever chain produced it *)
+  Theorem zoom_level_eq_direct_g bases res cs bs :
+    1 <= cs -> 1 <= bs -> Positive res -> Positive (map fst bases) ->
+    (forall b c, In (b, c) bases -> ValidCoolerG c) ->
+    (forall lv, zoomify_cooler_g agg bases res cs bs = Some lv ->
+       Permutation (map fst lv) (np_unique (map fst bases ++ res)) /\ NoDup (map fst lv) /\
+       forall r c, lookup r lv = Some c -> DirectW (coarsen_cg agg) bases r c /\ ValidCoolerG c) /\
+    (zoomify_cooler_g agg bases res cs bs = None <->
+       exists r, In r res /\ forall b, In b (map fst bases) -> r mod b <> 0).
+  Proof.
+    intros. apply (zoom_with_eq_direct (coarsen_cg agg) ([], [], []) ValidCoolerG coarsen_cg_valid coarsen_cg_compose
+                     coarsen_cg_chunk_independent); assumption.
+  Qed.
+End ZoomAgg.
 
 (* ================================================= preferred_sequence / the -r grammar *)
 Lemma pow2_pos i : 0 <= i -> 1 <= 2 ^ i.
